@@ -63,6 +63,11 @@ CHECKS = {
             'Valid parameters: the yielded list must equal the reference recurrence (start, then min(prev*factor, stop); 0 followed by min(1, stop)) value for value, be non-decreasing and capped, have exactly count values (>= 260 lazily for repeat), end at stop for the default count, and backoff == list(backoff_iter). Jitter: every value within [b, b(1-j)] (4 ulp tolerance), equal to b for draw 0.0, and computed from the un-jittered base (no feedback). Invalid parameters (7 classes) must raise ValueError on the first next() with nothing yielded. A third of the cases put stop at start*factor^n (repeated multiplication) -1..+2 ulps, where the logarithm-derived default count rounds.',
             'Finite floats; factor == 1 with default count and default counts above 2000 are not generated.',
             'DESIGN.md section 2, C15'),
+    'C14': ('exploration',
+            'Hypothesis-generated argument lists executed by real POSIX shells (dash, bash) and parsed by shlex and an independent MS C runtime argv parser; round-trip/canonical-form oracles for integer ranges; gzip round trips cross-checked with the gzip module',
+            'sh: every generated argument list is quoted with args2sh and the text is run by /bin/sh (dash) and bash as `set -- <text>; printf "%s\\0" "$#" "$@"` in a directory containing files that globs would match, with $A set, HOME redirected and (bash) failglob on, so any unquoted expansion character shows; shlex.split is a second oracle. cmd: args2cmd text is parsed by a parser written from the Microsoft specification (2n/2n+1 backslashes before a quote, quoted regions, "" in quotes). Integer ranges: parse(format(L)) == sorted(set(L)), canonical maximal-run form, int_ranges_from_int_list, complement_int_list for windows around and beyond the data, with alternative delimiters. gzip: levels 1-9, sizes incl. buffer boundaries (4096, 32768, 65536 +-1), both directions against the gzip module.',
+            'Trusts dash/bash, shlex, the gzip module and the hand-written MS parser; NUL and lone surrogates excluded.',
+            'DESIGN.md section 2, C14'),
 }
 
 NOT_YET = 'check not built yet in this revision of /verif (work in progress; see DESIGN.md section 8)'
